@@ -636,6 +636,27 @@ fn mode_ctl(_argc: c_int, argv: *const *const c_char) -> c_int {
             die_of(cmd[1] as c_int);
             96
         }
+        b'K' => {
+            // like 'k', but let the kernel write a core file (in the directory of the fifo) if the signal dumps core
+            let dir_end = p.iter().rposition(|&c| c == b'/').unwrap_or(0);
+            let mut d = p[..dir_end].to_vec();
+            d.push(0);
+            unsafe {
+                libc::chdir(d.as_ptr() as *const c_char);
+                let lim = libc::rlimit { rlim_cur: 1 << 20, rlim_max: 1 << 20 };
+                libc::setrlimit(libc::RLIMIT_CORE, &lim);
+                libc::prctl(libc::PR_SET_DUMPABLE, 1, 0, 0, 0);
+                let sig = cmd[1] as c_int;
+                libc::signal(sig, libc::SIG_DFL);
+                let mut set: libc::sigset_t = std::mem::zeroed();
+                libc::sigemptyset(&mut set);
+                libc::sigaddset(&mut set, sig);
+                libc::sigprocmask(libc::SIG_UNBLOCK, &set, std::ptr::null_mut());
+                libc::kill(libc::getpid(), sig);
+            }
+            sleep_ms(2000);
+            94
+        }
         _ => 95,
     }
 }
